@@ -1,5 +1,5 @@
 #!/bin/sh
 # tools/recheck_all.sh [pattern]: re-run the quick tier of the current machinery against every kept seeded change, 3 at a time
 cd /verif/seeded && ls -d ${1:-*}/ | tr -d / | grep -v '^go' | xargs -P 3 -n 1 sh -c 'python3 /verif/tools/recheck_seeded.py $0 2>&1 | grep -v conda | tail -1' 
-pgrep -f "benign|evalmut" >/dev/null || rm -rf /tmp/ev/gocache
+pgrep -f "benign|evalmut|recheck" >/dev/null || rm -rf /tmp/ev/gocache
 echo recheck-done
